@@ -58,6 +58,7 @@ fn c_supported_sets() -> Vec<(&'static str, Value)> {
     let obs = json!([]);
     let mut v = gen::observer_sets();
     v.extend(invariant_mutating_sets().into_iter().filter(|(n, _)| *n != "i-starttag"));
+    v.push(("c-full", json!({"full": true, "elem":[{"sel":"*","element":[{"op":"get_attr","a":["href"]},{"op":"get_attr","a":["id"]}],"comments":obs,"text":obs}],"doc":[{"doctype":obs,"comments":obs}]})));
     v.push(("c-reads", json!({"elem":[{"sel":"*","element":[{"op":"get_attr","a":["href"]},{"op":"has_attr","a":["ID"]},{"op":"set_attr","a":["a b","v"]},{"op":"set_name","a":["x y"]},{"op":"set_attr","a":["ok","1"]}],"text":obs,"comments":[{"op":"set_text","a":["a-->b"]},{"op":"set_text","a":["fine"]}]}],"doc":[{"doctype":obs,"end":[{"op":"append","a":["<!--e-->"]}]}]})));
     v.push(("c-stream", json!({"elem":[{"sel":"a, p, b","element":[{"op":"s_before","a":[["<", "x>"], false]},{"op":"s_append","a":[["é", {"bytes":[226,130]},{"bytes":[172]}]]},{"op":"on_end_tag","a":[[{"op":"s_after","a":[["!"]]},{"op":"remove"}]]}],"text":[{"op":"s_replace","a":[["T"]],"last":true}]}]})));
     v
@@ -71,7 +72,8 @@ pub fn job_c17(out_dir: &str, tier: &str, seed: u64) {
     let all = |_: &str| true;
     let mut inputs = gen::corpus(&mut rng, if quick { 8 } else { 30 }, if quick { 500 } else { 12000 });
     inputs.retain(|i| i.len() <= 200);
-    let mut n = 0usize; let mut skipped = 0usize;
+    let mut n = 0usize; let mut skipped = 0usize; let mut died = 0usize;
+    let mut pending: Vec<(Value, Vec<u8>, Vec<usize>, CapiOpts, Value)> = Vec::new();
     for (ii, input) in inputs.iter().enumerate() {
         for si in 0..2 {
             let (_, hs) = &sets[(ii * 3 + si * 5) % sets.len()];
@@ -90,16 +92,49 @@ pub fn job_c17(out_dir: &str, tier: &str, seed: u64) {
             if ii % 5 == 0 { cuts = (1..input.len()).collect(); }
             let opts = CapiOpts { free_builder_early: rng.chance(1, 2), free_selectors_early: rng.chance(1, 3), late_str_free: rng.chance(1, 2),
                                   skip_end: rng.chance(1, 10), double_take_error: rng.chance(1, 2) };
-            let ctl = capi::run_capi(&cfg, input, &cuts, &opts);
+            let optsj = json!({"free_builder_early": opts.free_builder_early, "free_selectors_early": opts.free_selectors_early, "late_str_free": opts.late_str_free, "skip_end": opts.skip_end, "double_take_error": opts.double_take_error});
+            pending.push((cfg.clone(), input.clone(), cuts.clone(), opts, optsj));
+        }
+    }
+    // the C runs happen in child processes (batches): if a permitted history makes the process abort or crash,
+    // that is an observation ("process_died"), not a failure of the harness
+    let exe = std::env::current_exe().unwrap();
+    let run_batch = |batch: &[(Value, Vec<u8>, Vec<usize>, CapiOpts, Value)]| -> Option<Vec<Vec<Value>>> {
+        use std::io::Write;
+        let mut child = std::process::Command::new(&exe).arg("capi-run").stdin(std::process::Stdio::piped()).stdout(std::process::Stdio::piped()).stderr(std::process::Stdio::null()).spawn().ok()?;
+        {
+            let mut stdin = child.stdin.take()?;
+            for (cfg, input, cuts, _, optsj) in batch { let _ = writeln!(stdin, "{}", json!({"cfg": cfg, "input": input, "cuts": cuts, "opts": optsj})); }
+        }
+        let out = child.wait_with_output().ok()?;
+        if !out.status.success() { return None; }
+        let lines: Vec<Vec<Value>> = String::from_utf8_lossy(&out.stdout).lines().filter_map(|l| serde_json::from_str::<Value>(l).ok()).map(|v| v["tl"].as_array().cloned().unwrap_or_default()).collect();
+        if lines.len() == batch.len() { Some(lines) } else { None }
+    };
+    let mut ctls: Vec<Option<Vec<Value>>> = Vec::new();
+    for batch in pending.chunks(64) {
+        match run_batch(batch) {
+            Some(ls) => ctls.extend(ls.into_iter().map(Some)),
+            None => for one in batch.chunks(1) { ctls.push(run_batch(one).map(|mut v| v.remove(0))); },
+        }
+    }
+    for ((cfg, input, cuts, opts, optsj), ctl) in pending.iter().zip(ctls.into_iter()) {
+        {
+            let input = input;
+            let ctl = match ctl { Some(c) => c, None => {
+                died += 1; n += 1;
+                let rec = json!({"id": format!("c17-{n}"), "compare": false, "api": [{"op":"process_died","r":"abort"}], "rust": {}, "c": {}});
+                sh.push(&rec, &json!({"id": rec["id"], "cfg": cfg, "input": input, "cuts": cuts, "opts": optsj}), None, true);
+                continue;
+            } };
             if ctl.iter().any(|e| e.to_string().contains("unknown-op")) { skipped += 1; continue; }
-            let rtl = driver::run(&cfg, input, &cuts, &RunOpts { no_end: opts.skip_end, ..RunOpts::default() });
+            let rtl = driver::run(cfg, input, cuts, &RunOpts { no_end: opts.skip_end, ..RunOpts::default() });
             let mut rust = observation("rust", &capi::normalise(&rtl), &all);
             let mut c = observation("c", &capi::normalise(&ctl), &all);
             for o in [&mut rust, &mut c] { for e in o["evs"].as_array_mut().unwrap() { if e["tt"].is_null() { e["tt"] = json!(""); } } }
             n += 1;
             let rec = json!({"id": format!("c17-{n}"), "compare": true, "api": api_history(&ctl), "rust": rust, "c": c});
-            let src = json!({"id": rec["id"], "cfg": cfg, "input": input, "cuts": cuts,
-                "opts": {"free_builder_early": opts.free_builder_early, "free_selectors_early": opts.free_selectors_early, "late_str_free": opts.late_str_free, "skip_end": opts.skip_end, "double_take_error": opts.double_take_error}});
+            let src = json!({"id": rec["id"], "cfg": cfg, "input": input, "cuts": cuts, "opts": optsj});
             sh.push(&rec, &src, None, true);
         }
     }
@@ -109,5 +144,5 @@ pub fn job_c17(out_dir: &str, tier: &str, seed: u64) {
     let rec = json!({"id": format!("c17-{n}"), "compare": false, "api": api_history(&probe), "rust": {}, "c": {}});
     sh.push(&rec, &json!({"id": rec["id"], "probe": true}), None, true);
     sh.finish(json!({"rule": "the shared corpus (<= 200 bytes) x 13 observer + 4 mutating + 2 C-specific handler sets (reads, validating setters with invalid arguments, streaming handlers with split UTF-8) x encodings x error injections (Stop at a handler index, tiny and medium memory limits, invalid selector, non-ASCII-compatible encoding) x chunkings, each driven through the extern C symbols under a random create/use/free history (builder freed early, selectors freed early, strings freed after the rewriter, rewriter freed without end, double take_last_error) and through the Rust API; plus the error probe of every failing entry point.",
-        "configurations_skipped_not_expressible_in_c": skipped}));
+        "configurations_skipped_not_expressible_in_c": skipped, "c_processes_that_died": died}));
 }
